@@ -188,14 +188,17 @@ def ceil_round_rules(chk, F):
     no_bad_events(chk, rule, "Duration::ceil", finals, eng)
     chk.floor(rule, "ceil partitions", n, 3)
 
-    # ---- round
-    recf, recc = [], []
+    # ---- round: floor(self, step) is taken as established above (uninterpreted, floor <= x < floor + |step|); how the other
+    # candidate is obtained - ceil(self, step), or floor + |step| through a helper - is interpreted, not prescribed: the value
+    # returned must be the floor when x is strictly nearer to it, and floor + |step| (MAX when that saturates) otherwise
+    recf = []
     A.install(duration_algebra=True, opaque_conv=False)
     eng.hooks_by_id[ffloor["id"]] = opaque_dur("floor", recf)
-    eng.hooks_by_id[fceil["id"]] = opaque_dur("ceil", recc)
     eng.hooks_by_id[fabs["id"]] = h_abs
+    eng.hooks_by_id[ft["id"]] = alg_from_total(D, [])
     finals, args = D.run(fround, interior=True)
     eng.hooks_by_id = {}
+    A.uninstall()
     n = 0
     agg = {}
     for st in finals:
@@ -203,31 +206,42 @@ def ceil_round_rules(chk, F):
             continue
         me = eng.deref(st, args[0])
         fl = [t for t in st.trace if isinstance(t, tuple) and t and t[0] == "floor"]
-        ce = [t for t in st.trace if isinstance(t, tuple) and t and t[0] == "ceil"]
-        okf = len(fl) == 1 and len(ce) == 1 and eng.deref(st, fl[0][1][0]) is me and eng.deref(st, ce[0][1][0]) is me and \
-            fl[0][1][1] is args[1] and ce[0][1][1] is args[1]
-        _agg(agg, (rule, "round:floor-and-ceil-of(self,step)"), okf, st, eng)
+        okf = len(fl) >= 1 and all(eng.deref(st, f_[1][0]) is me and f_[1][1] is args[1] for f_ in fl) and all(f_[2] is fl[0][2] for f_ in fl)
+        _agg(agg, (rule, "round:floor-of(self,step)"), okf, st, eng)
         if not okf:
             continue
-        Fl, Ce = fl[0][2], ce[0][2]
+        Fl = fl[0][2]
         x = D.total(me)
-        tf, tc = D.total(Fl), D.total(Ce)
-        # premises established by the floor/ceil rules: floor <= x < ceil
-        prem = [(tf - x, "<="), (x - tc + 1, "<=")]
-        if not D.feasible(st, prem):
-            continue
-        n += 1
-        st2 = st.clone()
-        D.close(st2, [x, tf, tc], prem)
+        tf = D.total(Fl)
+        s = D.total(args[1])
         r = st.ret
-        if r is Fl:
-            ok = D.implies(st2, (x - tf) - (tc - x) + 1, "<=", prem)  # strictly nearer to floor
-            _agg(agg, (rule, "round:returns-floor=>strictly-nearer-floor"), ok, st, eng)
-        elif r is Ce:
-            ok = D.implies(st2, (tc - x) - (x - tf), "<=", prem)  # nearer to ceil or tie
-            _agg(agg, (rule, "round:returns-ceil=>nearer-ceil-or-tie"), ok, st, eng)
-        else:
-            _agg(agg, (rule, "round:returns-floor-or-ceil"), False, st, eng, {"ret": repr(r)})
+        TR = D.total(r)
+        vias = via(st, bad)
+        for sgn, scons, abs_s in (("s>0", [(-s + 1, "<=")], s), ("s<0", [(s + 1, "<=")], -s)):
+            tc = tf + abs_s
+            # premises established by the floor rule: floor <= x < floor + |step|
+            prem = scons + [(tf - x, "<="), (x - tc + 1, "<=")]
+            if not D.feasible(st, prem):
+                continue
+            n += 1
+            st2 = st.clone()
+            D.close(st2, [x, tf, tc] + ([TR] if TR is not None else []), prem)
+            tag = ("[via:" + "+".join(vias) + "]") if vias else ""
+            if r is Fl or (TR is not None and D.implies(st2, TR - tf, "==", prem)):
+                ok = D.implies(st2, (x - tf) - (tc - x) + 1, "<=", prem)  # strictly nearer to floor
+                _agg(agg, (rule, "round:returns-floor=>strictly-nearer-floor" + tag), ok, st, eng)
+            else:
+                fits = prem + [(tc - D.MAX_T, "<=")]
+                sat = prem + [(Lin.const(D.MAX_T + 1) - tc, "<=")]
+                okv = TR is not None
+                if okv and D.feasible(st2, fits):
+                    okv = D.implies(st2, TR - tc, "==", fits)
+                if okv and D.feasible(st2, sat):
+                    okv = D.is_const_dur(st2, r, D.MAX, sat)
+                _agg(agg, (rule, "round:returns-floor-or-floor+|step|" + tag), okv, st, eng, {"ret": repr(TR)[:200], "floor": repr(tf)[:120]})
+                if okv:
+                    ok = D.implies(st2, (tc - x) - (x - tf), "<=", prem)  # nearer to ceil or tie
+                    _agg(agg, (rule, "round:returns-ceil=>nearer-ceil-or-tie" + tag), ok, st, eng)
     for (r, construct), (tot, okc, det) in sorted(agg.items()):
         chk.ob(r, "Duration::round", construct, tot == okc, "decision table vs counts (%d partitions)" % tot, detail=det)
     no_bad_events(chk, rule, "Duration::round", finals, eng)
